@@ -201,12 +201,12 @@ def serialSchedule (p : Pending) (sched : List Nat) : List Nat :=
     ((bs.foldr insertBlock []).map (·.sched)).flatten
 
 /-- maximal runs of events with the same transaction name -/
-def runsOf : List Ev → List (String × List Op)
+def runsOf : List Ev → List (String × List Ev)
   | [] => []
   | e :: rest =>
     match runsOf rest with
-    | (n, ops) :: more => if n == e.txn then (n, e.op :: ops) :: more else (e.txn, [e.op]) :: (n, ops) :: more
-    | [] => [(e.txn, [e.op])]
+    | (n, evs) :: more => if n == e.txn then (n, e :: evs) :: more else (e.txn, [e]) :: (n, evs) :: more
+    | [] => [(e.txn, [e])]
 
 def nodupStr : List String → Bool
   | [] => true
